@@ -6,7 +6,8 @@
        ScalarResult, MappingResult, the memoised row getters, unique, columns, yield_per, close, freeze,
        run on an ARBITRARY list of calls; one observation (return value or exception, result.closed) per call.
    [run_spec w rows ops]  the list model: remaining rows + seen-sets.
-   [guard]  excludes exactly three defects of the implementation (D1-D3, each refuted below) and sizes < 1. *)
+   [guard]  excludes exactly two defects of the implementation (D1, D2, each refuted below) and sizes < 1.
+            (A third one, stale memoised getters after ScalarResult/MappingResult.unique(), was repaired.) *)
 From Coq Require Import List ZArith Bool Arith.
 Import ListNotations.
 From SAV.engine Require Import ResultModel ResultSpec ResultFetchProofs ResultViewProofs ResultOnlyOneProofs
@@ -88,16 +89,16 @@ Theorem c10_only_one_row_on_exhausted_cursor_not_closed_refuted :
 Proof. exact only_one_row_on_exhausted_cursor_not_closed. Qed.
 Print Assumptions c10_only_one_row_on_exhausted_cursor_not_closed_refuted.
 
-(* D3 *)
-Theorem c10_filter_unique_after_fetch_ignored_refuted :
+(* formerly D3, repaired by 386c857 (ScalarResult/MappingResult.unique are @_generative): unique() after a
+   fetch on a scalars() view is honoured by every getter *)
+Example c10_ex_filter_unique_after_fetch_honoured :
   run_impl StDirect 1 [[VI 2]; [VI 2]; [VI 2]; [VI 2]] [Scalars 0; Next; Unique KRow; Next; Next; FetchMany (Some 2)] =
     [(OUnit, false); (OItem (IScalar (VI 2)), false); (OUnit, false);
-     (OItem (IScalar (VI 2)), false); (OItem (IScalar (VI 2)), false); (OItems [IScalar (VI 2)], false)] /\
+     (OItem (IScalar (VI 2)), false); (OStop, false); (OItems [], false)] /\
   run_spec 1 [[VI 2]; [VI 2]; [VI 2]; [VI 2]] [Scalars 0; Next; Unique KRow; Next; Next; FetchMany (Some 2)] =
     [(OUnit, false); (OItem (IScalar (VI 2)), false); (OUnit, false);
      (OItem (IScalar (VI 2)), false); (OStop, false); (OItems [], false)].
-Proof. exact filter_unique_after_fetch_ignored. Qed.
-Print Assumptions c10_filter_unique_after_fetch_ignored_refuted.
+Proof. exact filter_unique_after_fetch_honoured. Qed.
 
 (* fuel exhaustion of the model's loops is unreachable *)
 Theorem c10_fuel_suffices : forall strategy w rows ops,
@@ -136,14 +137,14 @@ Example c10_ex_guard_rejects :
   guard StDirect 2 rows3 [Unique KRow; FetchOne; OnlyOne First] = false /\
   guard StDirect 2 rows3 [Unique KRow; FetchOne; OnlyOne OneOrNone] = false /\
   guard StDirect 1 [[VI 1]] [All; OnlyOne First; FetchOne] = false /\
-  guard (StBuffered 2) 1 [[VI 1]] [FetchMany (Some 2); OnlyOne First; FetchOne] = false /\
-  guard StDirect 1 [[VI 2]; [VI 2]; [VI 2]; [VI 2]] [Scalars 0; Next; Unique KRow; Next; Next; FetchMany (Some 2)] = false.
+  guard (StBuffered 2) 1 [[VI 1]] [FetchMany (Some 2); OnlyOne First; FetchOne] = false.
 Proof. exact guard_rejects_witnesses. Qed.
 Example c10_ex_guard_accepts :
   guard StDirect 2 rows3 [Unique KRow; OnlyOne One] = true /\
   guard StIter 1 [[VI 1]] [All; OnlyOne First; FetchOne] = true /\
   guard StDirect 1 [[VI 1]] [FetchMany (Some 2); OnlyOne First; FetchOne] = true /\
   guard StDirect 1 [[VI 2]; [VI 2]; [VI 2]] [Scalars 0; Unique KRow; Next; Next] = true /\
+  guard StDirect 1 [[VI 2]; [VI 2]; [VI 2]; [VI 2]] [Scalars 0; Next; Unique KRow; Next; Next; FetchMany (Some 2)] = true /\
   guard StDirect 2 rows3 [FetchOne; Unique KRow; FetchOne; FetchOne] = true /\
   guard (StBuffered 2) 2 (rows3 ++ rows3 ++ [[VI 0; VI 0]])
     [YieldPer 3; Unique KFirst; FetchMany None; Mappings; Columns [1; 0]; Partitions (Some 1) 2; ToRoot;
